@@ -156,6 +156,8 @@ class History:
             self._op_rush(*op[1:])
         elif kind == "probeN":
             self._op_probe_batch(op[1])
+        elif kind == "inject":
+            self._op_inject(*op[1:])
         elif kind == "retain":
             self._op_retain()
         elif kind == "branch":
@@ -381,12 +383,35 @@ class History:
             if fn is not None:
                 self.report(fn(self, s, s2, instrs, s3))
 
+    def _op_inject(self, o_sel: int, d_sel: int) -> None:
+        """co-simulation style demand injection: add a request to the current state through the public
+        simulation_state_ops API, stamped with the current simulation time (possible even before the first step)"""
+        import h3
+        from nrel.hive.model.request.request import Request
+        from nrel.hive.state.simulation_state import simulation_state_ops as ops
+        from hv.worlds import SITE_POOL
+
+        sites = self.spec["sites"]
+        og = h3.geo_to_h3(*SITE_POOL[sites[o_sel % len(sites)]], 15)
+        dg = h3.geo_to_h3(*SITE_POOL[sites[d_sel % len(sites)]], 15)
+        fl = self.spec.get("fleet_ids") or []
+        self._injected = getattr(self, "_injected", 0) + 1
+        r = Request.build(f"x{self._injected}", og, dg, self.sim.road_network, self.sim.sim_time, 1, False, fleet_id=fl[o_sel % len(fl)] if fl else None, value=5.0)
+        res = ops.add_request_safe(self.sim, r)
+        self.rp = self.rp._replace(s=res.unwrap())
+        self.stats["requests_injected"] += 1
+        self.flag("request_injected")
+
     def _op_retain(self) -> None:
         from hv.canon import fingerprint
 
         if len(self.retained) < 8:
             self.retained.append((self.sim, fingerprint(self.sim, ids=True)))
             self.stats["retained"] += 1
+            for m in self.monitors:
+                fn = getattr(m, "on_retain", None)
+                if fn is not None:
+                    fn(self)
 
     def _op_branch(self, k: int) -> None:
         for m in self.monitors:
